@@ -110,9 +110,11 @@ def _dataclass_parameters(class_: Class) -> list[Parameter]:
                 continue
 
             # Determine parameter kind.
+            # An explicit `field(kw_only=...)` takes precedence over the class-level setting and the `KW_ONLY` sentinel.
+            field_kw_only = field_args.get("kw_only")
             kind = (
                 ParameterKind.keyword_only
-                if kw_only or field_args.get("kw_only") == "True"
+                if (kw_only if field_kw_only is None else field_kw_only == "True")
                 else ParameterKind.positional_or_keyword
             )
 
